@@ -32,6 +32,7 @@ CALLS += [(c, m) for c in ("profile", "statements", "tax") for m in ("redirect30
 ELSEWHERE = "http://ofx.elsewhere.example/relocated/Srv.dll"
 WIREKIND = {"stmtend": "statements", "ccstmt": "statements", "emptystmt": "statements"}
 BANK_ONLY = "other-path-bank-only"
+NO_SERVICE = "no-statement-service"  # the profile lists the sign-on and profile message sets only: no URL is advertised for any statement service
 
 
 def cache_dir():
@@ -76,6 +77,8 @@ class System:
             n = self.moves.get(cfg["url"], 0)
             u = f"{p.scheme}://{p.netloc}/svc{n % 2}{p.path}"
             return {"bank": u, "cc": u, "inv": u}
+        if self.advertise == NO_SERVICE:
+            return {}
         if self.advertise == BANK_ONLY:
             # only the banking message set, closing statements not available: the profile says nothing about the
             # URL for closing-statement and credit-card requests
@@ -221,7 +224,7 @@ class System:
             # the redirect was not followed: the call fails - having sent the request once
             timed_out = True
         elif err is not None:
-            if self.advertise == "split" and mode in ("normal", "timeout", "redirect307", "redirect308") and call != "profile":
+            if self.advertise in ("split", NO_SERVICE) and mode in ("normal", "timeout", "redirect307", "redirect308") and call != "profile":
                 # the profile advertises different URLs per service: refusing to send is acceptable, as long as
                 # nothing carrying the credentials left the client
                 split_refusal = True
@@ -241,7 +244,7 @@ class System:
         if self.advertise == "moving":
             svc = set(self.last_advertised.values()) if self.last_advertised else set()  # what the profile answer of THIS call said
         else:
-            svc = self.service_url(cfg) if self.advertise != "split" else set(self.advertised(cfg).values())
+            svc = self.service_url(cfg) if self.advertise not in ("split", NO_SERVICE) else set(self.advertised(cfg).values())
         want = []
         wk = WIREKIND.get(call, call)
         if call == "profile":
@@ -413,7 +416,7 @@ def reconfigure_work(chunk):
     return t
 
 
-CONFIGS = [(adv, pol, pair) for adv in ("same", BANK_ONLY, "other-host", "split", "moving") for pol in ("none", "first", "every") for pair in ("same-server", "other-server", "same-server-second-keeps-no-cookies") if not (pair == "same-server-second-keeps-no-cookies" and pol == "none")]
+CONFIGS = [(adv, pol, pair) for adv in ("same", BANK_ONLY, "other-host", "split", "moving", NO_SERVICE) for pol in ("none", "first", "every") for pair in ("same-server", "other-server", "same-server-second-keeps-no-cookies") if not (pair == "same-server-second-keeps-no-cookies" and pol == "none")]
 
 
 def explore(args):
@@ -451,7 +454,7 @@ def run(ctx):
     rot = ctx.seed % len(CONFIGS)
     cfgs = CONFIGS[rot:] + CONFIGS[:rot]
     if ctx.quick:
-        keep = [c for c in cfgs if not (c[2] == "other-server" and c[1] == "none") and not (c[2] == "same-server-second-keeps-no-cookies" and c[0] in ("split", "moving"))]
+        keep = [c for c in cfgs if not (c[2] == "other-server" and c[1] == "none") and not (c[2] == "same-server-second-keeps-no-cookies" and c[0] in ("split", "moving", NO_SERVICE))]
         blocks = {}
         for c in keep:
             blocks.setdefault(c[0], []).append(c)
@@ -478,7 +481,7 @@ def run(ctx):
         "systems_at_fixpoint": tally.counts.get("fixpoints", 0),
         "depth_bound": depth,
         "max_depth_with_new_state": md,
-        "rule": ("16 of the 40" if ctx.quick else "all 40") + " closed systems = profile advertising {same URL, other path for a banking-only profile without closing statements, other host, a different URL per service, a server that re-sends its profile with an unchanged date but an alternating service URL} x server cookie policy {none, first response, every response} x second client "
+        "rule": (f"{len(cfgs)} of the {len(CONFIGS)}" if ctx.quick else f"all {len(CONFIGS)}") + " closed systems = profile advertising {no statement service at all (nothing carrying the credentials may leave), same URL, other path for a banking-only profile without closing statements, other host, a different URL per service, a server that re-sends its profile with an unchanged date but an alternating service URL} x server cookie policy {none, first response, every response} x second client "
         "{same server, other server, same server without a cookie jar (persist_cookies=False)}; per system BFS over all event sequences (48 events: 2 clients x {profile: dryrun/normal; statements, accounts, tax: dryrun/skip_profile/"
         "normal; closing-statement, credit-card and empty statement requests: normal; each of the four kinds with a server that takes the request and never answers; profile, statements, tax with a server that answers 307 or 308 pointing to another host}) to the depth bound, states de-duplicated on (both cookie jars, cached profile files, server cookie flags) - every field future requests can depend on; every "
         "transition executes the real OFXClient against the scripted server and checks that event's HTTP exchanges against the model (count, method, URL, headers, anonymous vs "
